@@ -90,6 +90,7 @@ type Config struct {
 	NoIdleAlt   bool          // do not offer "idle" as an alternative when something is enabled
 	IdleEnvOnly bool          // offer "idle" only where an environment action is on the menu (hold a delivery)
 	NoPreAlt    bool          // do not offer thread-switch alternatives (threads run in default order)
+	HoldPoints  bool          // offer "hold" (cost: one thread switch) where a thread waits at a Point: every thread stays parked for one tick of virtual time, so that a timer can win against a runnable thread
 	KeepMenus   bool
 	TraceSites  bool
 	WantLeaks   bool // compute Leaked after the drain
@@ -411,6 +412,14 @@ func (e *Env) menu() []option {
 			a := acts[i]
 			out = append(out, option{label: a.Label, act: &a, cost: CostEnv})
 			hasEnv = true
+		}
+	}
+	if e.Cfg.HoldPoints && !e.Cfg.NoPreAlt {
+		for _, o := range out {
+			if o.th != nil && o.th.kind == kPoint {
+				out = append(out, option{label: "hold", idle: true, cost: CostPre})
+				break
+			}
 		}
 	}
 	if len(out) > 0 {
